@@ -6,7 +6,7 @@ AREA = "c03"
 LEAN_PROPS = "Litep2pVerif.Props.C03"
 THEOREMS = ["msg_roundtrip", "varint_roundtrip", "framing_transparent", "framing_writer_exact",
             "negotiate_terminates", "negotiate_confluent", "negotiate_agree", "into_inner_safe",
-            "fallback_reported_as_main"]
+            "webrtc_agree_partial", "fallback_reported_as_main"]
 CONSTS = ["MSS_MAX_PROTOCOLS", "MSS_MAX_LEN_BYTES", "MSS_MAX_FRAME_SIZE_MINUS"]
 _P = "src/multistream_select/protocol.rs"
 _L = "src/multistream_select/length_delimited.rs"
@@ -24,9 +24,11 @@ MANIFEST = {
             "(framing_transparent, framing_writer_exact); the composition of DialerSelectFuture (V1 and V1Lazy, incl. "
             "Negotiated::expecting) and ListenerSelectFuture over two FIFO channels terminates under an explicit measure, is "
             "confluent, and every maximal execution ends with both sides reporting the dialer's first supported name or "
-            "both failing (negotiate_terminates, negotiate_confluent, negotiate_agree, into_inner_safe); the message-based "
-            "dialer/listener pair agrees for every payload grouping (webrtc_agree); fallback names are reported as the main "
-            "protocol (fallback_reported_as_main). Tie: the real futures run against each other and against scripted raw peers "
+            "both failing (negotiate_terminates, negotiate_confluent, negotiate_agree, into_inner_safe); for the message-based "
+            "variant only the safety half is proved (webrtc_agree_partial: the listener accepts only supported names, the "
+            "dialer succeeds only on the name it proposes; first-preference agreement of the pair is covered by the "
+            "correspondence run and the oracle, not by a theorem); fallback names are reported as the main protocol "
+            "(fallback_reported_as_main, model of the four-line mapping only). Tie: the real futures run against each other and against scripted raw peers "
             "over an in-memory duplex with scripted chunking/Pending, compared byte for byte with the model.",
     "note": "Trusted: Lean kernel; axioms propext/Classical.choice/Quot.sound; the hand-written models and their tie (sampled "
             "differential runs through adapter src/verif/c03.rs); the byte-level composition in Driver/C03.lean; the "
